@@ -20,6 +20,7 @@ RULE = ("fault enumeration: directory trees of 2-8 generated stylesheets in 1-3 
         "is named on stderr and the exit status is 0. Non-trivial = tree with a fault and >= 2 stylesheets; distinct = (tree, fault kind, placement).")
 ASSUMPTIONS = ["the command run on one file alone in a pristine copy of the tree is the reference for that file's output (differential)",
                "unreadable-by-permission files are not generated: the sandbox runs as root, which ignores mode bits"]
+EXHAUSTIVE = {"quick": ["every fault kind (9) x placement (6) combination at least once"], "thorough": ["every fault kind (9) x placement (6) combination, >= 8 trees each"]}
 MUST_OBSERVE = {"any": ["trees_judged", "dir_vs_single_compared", "reruns_compared", "faults_injected", "fault_reported_on_stderr"]}
 SIZES = {"quick": 4, "thorough": 32}
 SHARD_TIMEOUT = {"quick": 900, "thorough": 7200}
